@@ -398,6 +398,11 @@ func (x *Exprer) compute(v ssa.Value) *Expr {
 		}
 		return mk("slice", lo+":"+hi, v, x.E(v.X))
 	case *ssa.MakeSlice:
+		if os.Getenv("XLINT_NO_FILL") == "" && x.filledInLoop(v) {
+			// `dst := make([]T, n); for i … { dst[i] = e }` builds the same list as `dst := make([]T, 0, n); for … { dst =
+			// append(dst, e) }`, whose value is the loop-carried μ{make([]T)}
+			return mk("phi", "μ", v, mk("make", "make("+typeStr(v.Type())+")", nil))
+		}
 		return mk("make", "make("+typeStr(v.Type())+")", v)
 	case *ssa.MakeMap:
 		if mt, ok := v.Type().Underlying().(*types.Map); ok && isSetValue(mt.Elem()) {
@@ -1606,4 +1611,24 @@ func (x *Exprer) loopBound(ph *ssa.Phi) *Expr {
 		}
 	}
 	return nil
+}
+
+// filledInLoop: the freshly made slice is assigned element by element inside a loop (dst[i] = e).
+func (x *Exprer) filledInLoop(m *ssa.MakeSlice) bool {
+	if m.Referrers() == nil || x.P == nil {
+		return false
+	}
+	fa := x.P.FA(m.Parent())
+	for _, r := range *m.Referrers() {
+		ia, ok := r.(*ssa.IndexAddr)
+		if !ok || ia.X != ssa.Value(m) || ia.Referrers() == nil {
+			continue
+		}
+		for _, u := range *ia.Referrers() {
+			if st, ok := u.(*ssa.Store); ok && st.Addr == ssa.Value(ia) && fa.inCycle(st.Block()) && !fa.inCycle(m.Block()) {
+				return true
+			}
+		}
+	}
+	return false
 }
